@@ -145,11 +145,17 @@ class IsoDepInitiator(object):
         while bool(data[0] & 0b00010000):
             data = pack('B', 0xA2 | self.pni)  # ACK
 
+            wait = timeout
             for i in itertools.count(start=1):  # pragma: no branch
                 try:
-                    data = self.clf.exchange(data, timeout)
+                    data = self.clf.exchange(data, wait)
+                    wait = timeout
                     if len(data) == 0:
                         raise nfc.clf.TransmissionError
+                    if data[0] & 0b11111110 == 0b11110010 and len(data) > 1:
+                        log.debug("ISO-DEP waiting time extension")
+                        wait = (data[1] & 0x3F) * self.fwt
+                        continue
                     break
                 except nfc.clf.TransmissionError:
                     if i <= self.n_retry_ack:
